@@ -154,6 +154,7 @@ struct RbHarness {
 		if(res) res->outcomes.insert("size=" + std::to_string(ref.size()));
 	}
 
+	void final_check() {}
 	void canon(std::string &out) {
 		out.append((const char *)&w, sizeof w);
 		out.push_back((char)ref.size());
